@@ -13,12 +13,10 @@ theorem C03_bad_config_type : resolveCfgArg .other = .error .configError := rfl
 
 /-- an item whose attribute part is not a documented setting raises ValueError -/
 theorem C03_unknown_setting_rejected (c : Cfg) (line : Str) (db : Option Bool)
-    (h : isCfgAttr (match Gen.inl_config_Config__set_str_to_values_0.split line with
-                    | [a, _] => a | _ => line) = false) :
+    (h : isCfgAttr (splitAttrVal line).1 = false) :
     setStrToValues c line db = .error .valueError := by
   unfold setStrToValues
-  simp only [bind, Except.bind]
-  split <;> simp_all [throw, throwThe, MonadExceptOf.throw]
+  simp only [h, Bool.not_false, if_true]
 
 /-- the aliquot of a lot division is applied to at most as many lots as were unpacked: `new_lots[idx]` never
     leaves the list (no IndexError), for every text -/
